@@ -175,6 +175,53 @@ theorem c08_h2_every_stream_from_own_request (site : Site) (e : SrvEnv) (h2r : R
       · rw [hq]; exact ha.2
       · exact hpool q (by simp [hq])
 
+/-! ## the same request over HTTP/1.1 and HTTP/2 -/
+
+/- Full statement aimed at (DESIGN §6): for every semantic request q, `parseH1 (renderH1 v q)` and
+   `parseH2 (fieldsH2 q)` yield the same request up to http_version, hence the same `respond` and the
+   same CGI environment except SERVER_PROTOCOL.
+   Proved below (`_partial`): the two *field loops and http_request_parse()* agree —
+     HTTP/1.1:  request line `m t HTTP/1.1`, `Host: a`, fields fs   (`parseSemH1`, built from
+                `applyFields`/`parsePostV`; C01's `parseHeaders_ok_iff` ties `applyFields` to the header bytes)
+     HTTP/2:    `:method m  :scheme http  :path t  :authority a`, fields fs, END_STREAM (`parseSemH2`)
+   give the same verdict, and on acceptance the same method, target (normalised target, path, query),
+   host, header list and body length; only `version` (2) and the HTTP/1 keep-alive flag differ.
+   What is missing for the full statement:
+     * the fields are "plain" (`PlainField`): lower-case token names outside Host / Connection /
+       Content-Length / Transfer-Encoding / TE (whose rules differ per version as the RFCs define), values
+       non-empty, trimmed and free of characters a parser rejects; no Upgrade / HTTP2-Settings in the accepted
+       record; method neither CONNECT nor POST, no request body;
+     * the statement starts from tokenised fields, not from rendered bytes (no `renderH1`);
+     * the response half (`respondC` reads `version` only when framing an unfinished body and when lower-casing a
+       repeated response header name) is checked by the concrete instance at the end of this file and by the
+       end-to-end cross-version stream, not proved in general. -/
+theorem c08_h1_h2_same_request_partial (o : Opts) (mf : Nat) (m t a : Bytes) (fs : List (Bytes × Bytes))
+    (hm : methodTable.contains m = true) (hmne : m ≠ []) (hnc : m ≠ ofString "CONNECT")
+    (hnp : m ≠ ofString "POST") (htsl : t.head? = some slash)
+    (htok : (if o.headerStrict then (if o.ctrlsReject then false else t.any uriCharInvalidStrict)
+             else t.any (fun b => b = 0 || b = cr || b = lf)) = false)
+    (hane : a ≠ []) (halen : a.length < 1024) (haval : a.any lineCharInvalidStrict = false)
+    (hpl : ∀ kv ∈ fs, PlainField o kv) (hsz : fieldsSize (pseudoFields m t a) + fieldsSize fs ≤ mf)
+    (hup : ∀ r r', applyFields o (pre1 m t) ((ofString "host", a) :: fs) = .ok r →
+      hostPolicy o 80 r = some (some r') →
+      (hasTag r' (ofString "upgrade") || hasTag r' (ofString "http2-settings")) = false) :
+    parseSemH2 o mf m t a fs = liftHeadRes (parseSemH1 o m t a fs) :=
+  parseSem_same o mf m t a fs hm hmne hnc hnp htsl htok hane halen haval hpl hsz hup
+
+/-- The HTTP/2 field loop alone: same record as the HTTP/1.x field loop (any outcome of the later
+    host / target checks), or the same rejection status. -/
+theorem c08_h2_field_loop_same_record (o : Opts) (mf : Nat) (m t a : Bytes) (fs : List (Bytes × Bytes))
+    (hm : methodTable.contains m = true) (hmne : m ≠ []) (hnc : m ≠ ofString "CONNECT")
+    (htsl : t.head? = some slash)
+    (htok : (if o.headerStrict then (if o.ctrlsReject then false else t.any uriCharInvalidStrict)
+             else t.any (fun b => b = 0 || b = cr || b = lf)) = false)
+    (hane : a ≠ []) (halen : a.length < 1024) (haval : a.any lineCharInvalidStrict = false)
+    (hpl : ∀ kv ∈ fs, PlainField o kv) (hsz : fieldsSize (pseudoFields m t a) + fieldsSize fs ≤ mf) :
+    match applyFields o (pre1 m t) ((ofString "host", a) :: fs) with
+    | .error e => h2Fields o mf pre2 {} (pseudoFields m t a ++ fs) = .error e
+    | .ok r1 => ∃ c, h2Fields o mf pre2 {} (pseudoFields m t a ++ fs) = .ok (asH2 r1, c) ∧ c.ext = false :=
+  h2Fields_spec o mf m t a fs hm hmne hnc htsl htok hane halen haval hpl hsz
+
 /-! ## non-vacuity: a concrete site, a concrete history -/
 
 def demoSite : Site :=
@@ -209,5 +256,18 @@ example : expectedAnswerH2 demoSite demoEnv (ReqSt.init demoEnv) 65535
       [(ofString ":method", ofString "GET"), (ofString ":scheme", ofString "http"),
        (ofString ":path", ofString "/a.txt"), (ofString ":authority", ofString "h")] true
     = expectedAnswer demoSite demoEnv reqA := by decide +kernel
+
+/-- a plain field, and a semantic request both parsers accept alike -/
+example : PlainField ⟨9567⟩ (ofString "x-probe", ofString "p1") :=
+  ⟨by decide, by decide, Or.inl (by decide), by decide, by decide, by decide, by decide, by decide⟩
+example : (match parseSemH1 ⟨9567⟩ (ofString "GET") (ofString "/a.txt?x=1") (ofString "h")
+                   [(ofString "x-probe", ofString "p1"), (ofString "if-none-match", ofString "\"e\"")],
+                 parseSemH2 ⟨9567⟩ 8192 (ofString "GET") (ofString "/a.txt?x=1") (ofString "h")
+                   [(ofString "x-probe", ofString "p1"), (ofString "if-none-match", ofString "\"e\"")] with
+           | .ok r1 t1, .ok r2 t2 =>
+             decide (r1.version = 1 ∧ r2.version = 2 ∧ r2.method = r1.method ∧ r2.headers = r1.headers ∧
+                     r2.host = r1.host ∧ r1.headers.length = 3 ∧ t1 = t2 ∧ t1.path = ofString "/a.txt" ∧
+                     t1.query = ofString "x=1")
+           | _, _ => false) = true := by decide +kernel
 
 end LtVerif.C08
